@@ -33,92 +33,7 @@ pub assume_specification<T, E> [core::result::Result::<T, E>::unwrap_or] (s: cor
 //      (0Dh), a LINE FEED (0Ah), or both."
 //   * balanced parentheses need no escape; the first unbalanced `)` ends the string.
 // =====================================================================================================
-pub struct Step {
-    pub eof: bool,        // the buffer ends before the lexeme is complete (unterminated string): must be an error
-    pub trunc: bool,      // lexeme complete only because the buffer ends (octal code of < 3 digits at the very end of
-                          // the buffer; the string is unterminated anyway): error or value, nothing demanded by C03
-    pub out: Option<u8>,  // Some(byte of the value) / None = end of string
-    pub pos: int,         // position just past the lexeme
-    pub nested: int,      // parenthesis depth after the lexeme
-}
-pub open spec fn st_eof(pos: int, nested: int) -> Step { Step { eof: true, trunc: false, out: None, pos, nested } }
-pub open spec fn st_emit(b: u8, pos: int, nested: int) -> Step { Step { eof: false, trunc: false, out: Some(b), pos, nested } }
-
-pub open spec fn is_oct(c: u8) -> bool { 0x30 <= c <= 0x37 }
-// number of octal digits of an escape whose first digit is at p: at most three
-pub open spec fn oct_len(buf: Seq<u8>, p: int) -> int {
-    if p < buf.len() && is_oct(buf[p]) {
-        if p + 1 < buf.len() && is_oct(buf[p + 1]) {
-            if p + 2 < buf.len() && is_oct(buf[p + 2]) { 3 } else { 2 }
-        } else { 1 }
-    } else { 0 }
-}
-// value of the n octal digits at p, most significant first
-pub open spec fn oct_val(buf: Seq<u8>, p: int, n: int) -> int decreases n {
-    if n <= 0 { 0 } else { oct_val(buf, p, n - 1) * 8 + (buf[p + n - 1] - 0x30) }
-}
-// syntactic class of the lexeme starting at pos (a function of at most two bytes; independent of any deviation);
-// used only to split the one statement `next_lexeme == lit_step` into separately reported obligations
-pub open spec fn lit_class(buf: Seq<u8>, pos: int) -> int {
-    if pos < 0 || pos >= buf.len() { 0 }                       // end of buffer
-    else if buf[pos] == 0x5C {
-        if pos + 1 >= buf.len() { 0 }                          // end of buffer
-        else { let d = buf[pos + 1];
-            if d == 0x6E || d == 0x72 || d == 0x74 || d == 0x62 || d == 0x66 || d == 0x28 || d == 0x29 || d == 0x5C { 1 }  // Table 3 letter
-            else if is_oct(d) { 2 }                            // \ddd
-            else if d == 0x0A || d == 0x0D { 3 }               // line continuation
-            else { 4 } }                                       // not in Table 3
-    }
-    else if buf[pos] == 0x28 || buf[pos] == 0x29 { 5 }         // parentheses
-    else if buf[pos] == 0x0D { 6 }                             // bare CARRIAGE RETURN
-    else { 7 }                                                 // any other byte stands for itself
-}
-pub open spec fn lit_step(buf: Seq<u8>, pos: int, nested: int) -> Step
-    decreases buf.len() - pos
-{
-    if pos < 0 || pos >= buf.len() { st_eof(pos, nested) } else {
-    let c = buf[pos];
-    if c == 0x5C {                                             // REVERSE SOLIDUS
-        if pos + 1 >= buf.len() { st_eof(pos + 1, nested) } else {
-        let d = buf[pos + 1];
-        if d == 0x6E { st_emit(0x0A, pos + 2, nested) }        // \n  LINE FEED
-        else if d == 0x72 { st_emit(0x0D, pos + 2, nested) }   // \r  CARRIAGE RETURN
-        else if d == 0x74 { st_emit(0x09, pos + 2, nested) }   // \t  HORIZONTAL TAB
-        else if d == 0x62 { st_emit(0x08, pos + 2, nested) }   // \b  BACKSPACE
-        else if d == 0x66 { st_emit(0x0C, pos + 2, nested) }   // \f  FORM FEED
-        else if d == 0x28 { st_emit(0x28, pos + 2, nested) }   // \(
-        else if d == 0x29 { st_emit(0x29, pos + 2, nested) }   // \)
-        else if d == 0x5C { st_emit(0x5C, pos + 2, nested) }   // \\
-        else if d == 0x0A {                                    // \ LF : continuation, EOL marker = LF alone
-            lit_step(buf, if DEV_BACKSLASH_LF_SWALLOWS_CR() && pos + 2 < buf.len() && buf[pos + 2] == 0x0D { pos + 3 } else { pos + 2 }, nested) }
-        else if d == 0x0D {                                    // \ CR or \ CR LF : continuation
-            lit_step(buf, if pos + 2 < buf.len() && buf[pos + 2] == 0x0A { pos + 3 } else { pos + 2 }, nested) }
-        else if is_oct(d) {                                    // \ddd
-            let n = oct_len(buf, pos + 1);
-            Step { eof: false, trunc: n < 3 && pos + 1 + n >= buf.len(),
-                   out: Some((oct_val(buf, pos + 1, n) % 256) as u8), pos: pos + 1 + n, nested } }
-        else {                                                 // not in Table 3: the backslash is ignored, d is kept
-            if DEV_UNKNOWN_ESCAPE_EMITS_NUL() { st_emit(0x00, pos + 1, nested) } else { st_emit(d, pos + 2, nested) } }
-        } }
-    else if c == 0x28 { st_emit(0x28, pos + 1, nested + 1) }
-    else if c == 0x29 {
-        if nested - 1 < 0 { Step { eof: false, trunc: false, out: None, pos: pos + 1, nested: nested - 1 } }
-        else { st_emit(0x29, pos + 1, nested - 1) } }
-    else if c == 0x0D {                                        // bare EOL marker CR / CR LF reads as one LF
-        if DEV_BARE_CR_KEPT() { st_emit(0x0D, pos + 1, nested) }
-        else { st_emit(0x0A, if pos + 1 < buf.len() && buf[pos + 1] == 0x0A { pos + 2 } else { pos + 1 }, nested) } }
-    else { st_emit(c, pos + 1, nested) } }
-}
-// Implementation limit: ISO 32000-1 puts no bound on the nesting of balanced parentheses, the depth counter of
-// StringLexer is an i32. A lexeme whose depth does not fit the counter must be reported as an error: neither a
-// panic (C01) nor a wrongly terminated string (C03) is acceptable.
-pub open spec fn depth_fits(n: int) -> bool { n <= i32::MAX }
-// what `r`, the new position and the new depth must be for a given step
-pub open spec fn lex_post(st: Step, r: Result<Option<u8>>, fpos: int, fnested: int) -> bool {
-    if st.eof || !depth_fits(st.nested) { r is Err }
-    else if st.trunc { r is Err || (r == Ok::<Option<u8>, PdfError>(st.out) && fpos == st.pos && fnested == st.nested) }
-    else { r == Ok::<Option<u8>, PdfError>(st.out) && fpos == st.pos && fnested == st.nested }
-}
+//@@ INCLUDE strlex/spec/s1_lit_step.rs
 proof fn lemma_oct_val_bound(buf: Seq<u8>, p: int, n: int)
     requires 0 <= n <= 3, 0 <= p, p + n <= buf.len(), forall|j: int| p <= j < p + n ==> is_oct(buf[j])
     ensures 0 <= oct_val(buf, p, n), n == 0 ==> oct_val(buf, p, n) == 0, n == 1 ==> oct_val(buf, p, n) < 8,
@@ -154,44 +69,7 @@ impl<'a, 'b> StringLexerIter<'a, 'b> {
 // is an odd number of digits - the final digit shall be assumed to be 0."  White-space = Table 1:
 // NUL HT LF FF CR SP.
 // =====================================================================================================
-pub open spec fn ws_listed(b: u8) -> bool { b == 0x20 || b == 0x09 || b == 0x0A || b == 0x0D || b == 0x0C }
-pub open spec fn hex_ws(b: u8, nul: bool) -> bool { ws_listed(b) || (nul && b == 0x00) }
-pub open spec fn hex_ws_iso(b: u8) -> bool { hex_ws(b, !DEV_HEX_NUL_NOT_SKIPPED()) }
-// same function as `hexval` of units/enc_leaf/kani_enc.rs (decode_nibble's contract): ISO digits 0-9 A-F a-f
-pub open spec fn hexval(c: u8) -> Option<u8> {
-    if 0x30 <= c <= 0x39 { Some((c - 0x30) as u8) } else if 0x41 <= c <= 0x46 { Some((c - 0x41 + 10) as u8) }
-    else if 0x61 <= c <= 0x66 { Some((c - 0x61 + 10) as u8) } else { None }
-}
-// first position >= p that does not hold white-space (buf.len() if there is none)
-pub open spec fn skip(buf: Seq<u8>, p: int, nul: bool) -> int decreases buf.len() - p {
-    if 0 <= p < buf.len() && hex_ws(buf[p], nul) { skip(buf, p + 1, nul) } else { p }
-}
-pub open spec fn skip_iso(buf: Seq<u8>, p: int) -> int { skip(buf, p, !DEV_HEX_NUL_NOT_SKIPPED()) }
-// does the reading of NUL as white-space matter for the next character at p ?
-pub open spec fn nul_matters(buf: Seq<u8>, p: int) -> bool { skip(buf, p, true) != skip(buf, p, false) }
-pub struct HStep {
-    pub eof: bool,        // buffer ends inside the string: must be an error
-    pub bad: bool,        // a character that is neither digit, white-space nor `>`: must be an error
-    pub out: Option<u8>,  // Some(next byte of the value) / None = `>` reached
-    pub pos: int,
-}
-pub open spec fn hex_step(buf: Seq<u8>, pos: int) -> HStep {
-    let p1 = skip_iso(buf, pos);
-    if p1 >= buf.len() { HStep { eof: true, bad: false, out: None, pos: p1 } } else {
-    let c1 = buf[p1];
-    if c1 == 0x3E { HStep { eof: false, bad: false, out: None, pos: p1 + 1 } }
-    else { match hexval(c1) {
-        None => HStep { eof: false, bad: true, out: None, pos: p1 + 1 },
-        Some(h) => {
-            let p2 = skip_iso(buf, p1 + 1);
-            if p2 >= buf.len() { HStep { eof: true, bad: false, out: None, pos: p2 } } else {
-            let c2 = buf[p2];
-            // odd number of digits: the missing digit is 0; the `>` is left for the next step
-            if c2 == 0x3E { HStep { eof: false, bad: false, out: Some((h * 16) as u8), pos: p2 } }
-            else { match hexval(c2) {
-                None => HStep { eof: false, bad: true, out: None, pos: p2 + 1 },
-                Some(l) => HStep { eof: false, bad: false, out: Some((h * 16 + l) as u8), pos: p2 + 1 } } } } } } } }
-}
+//@@ INCLUDE strlex/spec/s2_hex_step.rs
 proof fn lemma_skip(buf: Seq<u8>, p: int, r: int, nul: bool)
     requires 0 <= p <= r <= buf.len(), forall|i: int| p <= i < r ==> hex_ws(buf[i], nul), r < buf.len() ==> !hex_ws(buf[r], nul)
     ensures skip(buf, p, nul) == r
